@@ -37,7 +37,7 @@ bw_exit = dict(
     funcs=[dict(src=dict(header=BH, cls='BackendWorker', name='_exit'), src_params=[], cfun='BW__exit', sig='void BW__exit(BW* self)', cls_c='BW', member_fields=['_options'],
                 siblings=['_check_frontend_queues_and_cached_transit_events_empty', '_check_failure_counter', '_flush_and_run_active_sinks', '_populate_transit_events_from_frontend_queues',
                           'has_pending_events_for_caching_when_transit_event_buffer_empty', '_process_lowest_timestamp_transit_event', '_cleanup_invalidated_thread_contexts', '_cleanup_invalidated_loggers'],
-                pre_rules=[(r'_check_failure_counter\(_options\.error_notifier\)', '_check_failure_counter()', '?'), (r'std::chrono::milliseconds\{0\}', '0', 1)],
+                pre_rules=[(r'_check_failure_counter\(_options\.error_notifier\)', '_check_failure_counter()', '?'), (r'std::chrono::milliseconds\{0\}', '0', '?')],
                 loops={r'while\s*\(\s*true\s*\)': r'''
 __CPROVER_assigns(g_last_empty, g_checked, g_failure_checks, g_flushes)
 __CPROVER_loop_invariant(g_flushes == 0)
